@@ -98,8 +98,15 @@ class World:
         if k == "S":
             _, r, dst, kind, steps, ext_variant = ev.split("=")
             r, dst = int(r), int(dst)
-            if kind == "u":
+            ieee_addressed = kind == "i"
+            if ieee_addressed:
+                kind = "u"   # a unicast all the same: the application falls back to the device's network address
+            if kind == "u" and not ieee_addressed:
                 addr = zt.AddrModeAddress(addr_mode=zt.AddrMode.NWK, address=zt.NWK(dst))
+            elif ieee_addressed:
+                _ie = t.EUI64.convert(f"00:11:22:33:44:55:{dst >> 8:02x}:{dst & 255:02x}")
+                self.app.add_device(_ie, dst)
+                addr = zt.AddrModeAddress(addr_mode=zt.AddrMode.IEEE, address=zt.EUI64(_ie))
             elif kind == "m":
                 addr = zt.AddrModeAddress(addr_mode=zt.AddrMode.Group, address=zt.Group(dst))
             else:
@@ -233,6 +240,8 @@ def run_script(rng, version, seq0, script):
         for ev in script:
             if ev[0] == "S":
                 _, r, dst, kind, steps, extv = ev.split("=")
+                if kind == "i":
+                    kind = "u"
                 if version >= 9:
                     w.route[int(r)] = "r" in steps
                     steps = steps.replace("r", "")  # set_source_route issues no command from v9 on
@@ -344,6 +353,32 @@ def oracle(w, mev, consts):
                             (len(info) == 1 and gaps != [round(d, 6) for d in delays]):
                         return (f"request {r} gave up as busy after sends at {i['t_send']}, busy replies at {tb}, end at {now} (waits {gaps}); "
                                 f"expected {len(delays)} attempts with waits {delays}")
+    # every attempt stands on its own set-up: a send command of a request that needs a source route (a real command up to v8)
+    # or an extended timeout is preceded, since the request's previous send command, by that set-up again - the lock is
+    # released between attempts, another request may have changed the NCP's route / timeout entry meanwhile
+    need = {}
+    for m in mev:
+        if m and m.startswith("S="):
+            _, r_, _, kind_, steps_ = m.split("=")
+            need[int(r_)] = {c for c in steps_ if c in "re"}
+    since, foreign = {}, {}
+    for what, r, stp in seqlog:
+        if what != "K":
+            continue
+        for q in foreign:
+            if q != r:
+                foreign[q] = True      # a command of another request since q's last set-up
+        if stp == "s":
+            missing = need.get(r, set()) - since.get(r, set())
+            if missing and foreign.get(r):
+                names = {"r": "source route", "e": "extended timeout"}
+                return (f"request {r} sent its message after commands of another request had been issued since its own "
+                        f"{' and '.join(names[c] for c in sorted(missing))} set-up: set-up and send of one request were interleaved with another's")
+            since[r] = set()
+            foreign[r] = False
+        else:
+            since.setdefault(r, set()).add(stp)
+            foreign[r] = False
     # set-up atomicity: between a request's first command of an attempt and its send command no other request's command
     cur = None
     for what, r, stp in seqlog:
@@ -362,7 +397,7 @@ def oracle(w, mev, consts):
 def scripts(ctx):
     rng = ctx.rng
     out = []
-    kinds = ["u=s", "u=rs", "u=es", "u=ers", "m=s", "b=s"]
+    kinds = ["u=s", "u=rs", "u=es", "u=ers", "m=s", "b=s", "i=s", "i=es"]
     import itertools
 
     # single request: every enqueue-status script x confirmation behaviour
@@ -458,6 +493,8 @@ def run(ctx):
                     continue
                 if ev[0] == "S":
                     _, r, dst, kind, steps, extv = ev.split("=")
+                    if kind == "i":
+                        kind = "u"   # for the model an IEEE-addressed unicast is a unicast
                     msteps = steps
                     if version >= 9:
                         w.route[int(r)] = "r" in steps
